@@ -74,3 +74,33 @@ fn self_remove_from_callback_and_from_idle() {
     el.dispatch(Duration::ZERO, &mut n).unwrap();
     assert_eq!(n, 1);
 }
+
+#[test]
+fn self_remove_is_final_whatever_the_callback_does_next() {
+    use calloop::generic::Generic;
+    use calloop::{Dispatcher, Interest, Mode, PostAction};
+    use std::io::Write;
+    // variant 0: remove(own) then return Reregister; 1: remove(own) then update(own); 2: remove(own) then disable(own)
+    for variant in 0..3u8 {
+        let mut el: EventLoop<u32> = EventLoop::try_new().unwrap();
+        let h = el.handle();
+        let (a, mut peer) = UnixStream::pair().unwrap();
+        let me: Rc<Cell<Option<RegistrationToken>>> = Rc::new(Cell::new(None));
+        let (h2, me2) = (h.clone(), me.clone());
+        let disp = Dispatcher::new(Generic::new(a, Interest::READ, Mode::Level), move |_, _, n: &mut u32| {
+            *n += 1;
+            let own = me2.get().unwrap();
+            h2.remove(own);
+            match variant { 1 => { let _ = h2.update(&own); } 2 => { let _ = h2.disable(&own); } _ => {} }
+            Ok(if variant == 0 { PostAction::Reregister } else { PostAction::Continue })
+        });
+        let tok = h.register_dispatcher(disp.clone()).unwrap();
+        me.set(Some(tok));
+        peer.write_all(b"x").unwrap(); // stays readable
+        let mut n = 0;
+        for _ in 0..3 { el.dispatch(Duration::from_millis(10), &mut n).unwrap(); }
+        assert_eq!(n, 1, "variant {}: a source that removed itself was called again", variant);
+        assert!(h.enable(&tok).is_err() && h.update(&tok).is_err() && h.disable(&tok).is_err(), "variant {}: the token of a removed source is still alive", variant);
+        let _src = disp.into_source_inner(); // panics if the loop still holds the source
+    }
+}
